@@ -54,6 +54,13 @@ pub fn c06(v: &View) -> Vec<Violation> {
     for r in &o.obs.rx {
         let key = (r.space, r.pn, r.hash);
         let ok = match peer.get(&(r.ep, r.conn)) {
+            // a replayed ClientHello makes the server create a second connection for the same
+            // client; Initial keys depend only on the client's connection id, and the sim-TLS
+            // stub derives all later secrets from the session nonce in the ClientHello, so that
+            // twin's packets are as authentic to the client as the first connection's (with real
+            // TLS only its Initial packets would be). Clients therefore accept what any
+            // connection of the server endpoint produced.
+            Some(_) if r.ep != 0 => tx_by_role[1].contains(&key),
             Some(p) => tx_by_side.get(p).map_or(false, |s| s.contains(&key)),
             // connection not (yet) attributed: must at least come from an endpoint of the other role
             None => tx_by_role[(r.ep != 0) as usize].contains(&key),
@@ -153,7 +160,11 @@ pub fn c06(v: &View) -> Vec<Violation> {
             }
         }
         // and the workload completes
-        if !o.app.capped_tasks.is_empty() {
+        // (a workload that was still making progress shortly before the cap merely exceeded
+        // the harness budget, e.g. one-byte windows over a slow path)
+        let cap_ns = o.plan.time_cap_us.saturating_mul(1000);
+        let still_progressing = cap_ns.saturating_sub(o.app.last_progress_ns) < 200_000_000_000;
+        if !o.app.capped_tasks.is_empty() && !still_progressing {
             out.push(viol(
                 "C06",
                 "c06.stalled_by_forgeries",
@@ -511,7 +522,9 @@ fn c08_promptness(v: &View, idx: u32, role: Role, side: Side) -> Vec<Violation> 
                     _ => None,
                 })
                 .unwrap_or(0);
-            let observed_delay_ns = ever.unwrap_or(o.end_ns).saturating_sub(r.t_ns);
+            // (never acknowledged: the wait ended when this connection ended, not when the run did)
+            let conn_end_ns = v.closed_event(side).map_or(o.end_ns, |c| c.0.min(o.end_ns));
+            let observed_delay_ns = ever.unwrap_or(conn_end_ns).saturating_sub(r.t_ns);
             let recent_data_tx = recent_data_tx || 2 * pacing_interval_ns >= observed_delay_ns;
             let sig: &str = if out_of_order && store_empty {
                 "gap_after_ack_of_ack_pruned_ranges"
